@@ -230,7 +230,7 @@ CHECKS.update({
                 "existing file and listed by the hint file a restart reads, and every file whose hint file lists something keeps its "
                 "statistics row, for a failure at any entry of any pass from any reachable state; the pinned order and the "
                 "hint-before-row order are refuted, and the histories of both findings are computed in the model under each order "
-                "(C20_failed_hint_write_*, C20_hint_before_row_refuted). Not proved: what a restart yields after the process went on behind a failed fsync or a failed rollover "
+                "(C20_failed_hint_write_*, C20_hint_before_row_refuted); merge_fail_hint is compared with the real store on every sweep case whose fault hit a hint write inside a merge (the copied prefix is read back from the pass's output). Not proved: what a restart yields after the process went on behind a failed fsync or a failed rollover "
                 "behind a completed append, or after a merge pass that failed half-way (sweep only).",
         "design_ref": "DESIGN.md section 8, C20", "note": "Faults are all-or-nothing per call, one per run. The injector sees libc "
                 "calls on *.bitcask.* files. Theorems cover the id discipline, the restart half, and the in-process half for failed appends / creates; the other in-process faults are enumeration only.",
